@@ -1,6 +1,7 @@
 package main
 
 import (
+	"os"
 	"go/constant"
 	"regexp"
 	"sort"
@@ -1070,6 +1071,26 @@ func (e *Exec) contractCall(f *frame, in ssa.Instruction, sp *FuncSpec, key stri
 	} else {
 		res = resList[0]
 	}
+	// outcome probes: after the postconditions of a /repo callee were assumed, each shape of its boolean and error
+	// results should still be possible here; one that is not is listed in the evidence (a contract that makes
+	// "the callee never succeeds" an assumption of its callers shows up as such a line)
+	if probesOn && !sp.Trusted && !sp.Ghost && e.specDepth == 0 && e.pure == 0 && e.quiet == 0 && gout != "false" && f.top {
+		for i, r := range resList {
+			var shapes [][2]string
+			switch {
+			case e.s.sortOf(r.Typ) == "Bool":
+				shapes = [][2]string{{"true", r.T}, {"false", not(r.T)}}
+			case r.Typ.String() == "error":
+				shapes = [][2]string{{"nil", "(= (if_tag " + r.T + ") 0)"}, {"non-nil", not("(= (if_tag " + r.T + ") 0)")}}
+			}
+			for _, sh := range shapes {
+				e.callOrd["probe:"+short]++
+				o := &Obligation{Name: fmt.Sprintf("%s#probe.%s.result%d-%s@%s%d", e.funcName(), short, i, sh[0], f.path, e.callOrd["probe:"+short]), Func: e.funcName(), Kind: "probe",
+					Pos: e.eng.prog.Fset.Position(in.Pos()).String(), Prefix: len(e.s.lines), Guard: gout, Goal: not(sh[1]), Script: e.s, Cover: true, Probe: true}
+				e.obls = append(e.obls, o)
+			}
+		}
+	}
 	return res, post, gout
 }
 
@@ -1212,6 +1233,9 @@ func (e *Exec) lockOps(sp *FuncSpec, args []Val, post *Heap) {
 }
 
 var _ = token.ADD
+
+// probesOn: outcome probes at contract calls (thorough tier, or VERIF_PROBES=1)
+var probesOn = os.Getenv("VERIF_PROBES") != ""
 
 // snapshotAtLock remembers, as hidden heap components, what a guarded component held right after its mutex was
 // acquired (heap components merge path by path, so the snapshots are path sensitive and loop-aware like any other).
